@@ -27,6 +27,8 @@ Values == <<
   A1(O1("a", JInt(1))), A2(JStr("a"), JStr("a")), A1(JNull),
   (* containers that a careless canonical form confuses: {} / [], an object / its list of pairs *)
   A2(JObj(<<>>), JArr(<<>>)), A2(O1("a", JInt(1)), A1(A2(JStr("a"), JInt(1)))),
+  (* the empty string as a member name, holding an array *)
+  O1("", A1(JInt(1))),
   JObj(<<>>), O1("a", JInt(1)), O1("a", JStr("x")), O1("a", JBool(TRUE)),
   O2("a", JInt(1), "b", JInt(2)), O1("b", JInt(1)), O1("ab", JInt(1)),
   O1("a", O1("a", JInt(1))), O1("class", JInt(1)), O2("a", JStr("a"), "class", JStr("b")),
